@@ -968,3 +968,166 @@ Proof.
   cbv zeta. replace (Z.of_N tv - (Z.of_N (pos + 1) + 2))%Z with (Z.of_N tv - (Z.of_N pos + 3))%Z by lia.
   destruct (in_signed 16 (Z.of_N tv - (Z.of_N pos + 3))); split; reflexivity.
 Qed.
+
+(* ================= (5) references to entries ================= *)
+
+(* the entry whose unit offset an operation embeds *)
+Definition uses_entry (o : wop) : option N :=
+  match o with
+  | WoConstType b _ => Some b
+  | WoRegType _ b => Some b
+  | WoDerefType _ _ b => Some b
+  | WoCall en => Some en
+  | WoParameterRef en => Some en
+  | WoConvert (Some b) => Some b
+  | WoReinterpret (Some b) => Some b
+  | _ => None
+  end.
+
+(* where the unit offset comes from, and the two ways of not having one *)
+Theorem entry_offset_cases dbg uo en :
+  entry_offset dbg uo en =
+  match uo with
+  | None => Err WUnsupportedCfiExpressionReference
+  | Some u =>
+      match nth_N (uo_entries u) en with
+      | None => Panic
+      | Some off =>
+          if off =? 0 then Err WUnsupportedExpressionForwardReference
+          else chk_sub 64 dbg off (uo_unit u)
+      end
+  end.
+Proof.
+  unfold entry_offset, unit_offset, debug_info_offset. destruct uo as [u|]; [|reflexivity].
+  destruct (nth_N (uo_entries u) en) as [off|]; [|reflexivity].
+  destruct (off =? 0); [reflexivity|]. cbn [bind].
+  destruct (chk_sub 64 dbg off (uo_unit u)); reflexivity.
+Qed.
+
+Lemma entry_offset_base_size_err dbg uo en er :
+  entry_offset dbg uo en = Err er -> base_size dbg uo en = Err er.
+Proof.
+  unfold entry_offset, base_size. destruct uo as [u|]; [|auto].
+  destruct (unit_offset dbg u en) as [[v|]| | |]; cbn [bind]; auto; discriminate.
+Qed.
+
+Lemma write_uleb_fuel_ok : forall f v, v < 2 ^ (7 * N.of_nat (S f)) -> exists bs, write_uleb_fuel (S f) v = Ok bs.
+Proof.
+  induction f as [|f IH]; intros v Hv.
+  - change (2 ^ (7 * N.of_nat 1)) with 128 in Hv. cbn [write_uleb_fuel]. rewrite shiftr7.
+    destruct (v / 128 =? 0) eqn:E; [eexists; reflexivity|].
+    exfalso. assert (v / 128 = 0) by (apply N.div_small; exact Hv). lia.
+  - remember (S f) as g. cbn [write_uleb_fuel]. destruct (N.shiftr v 7 =? 0); [eexists; reflexivity|].
+    subst g. destruct (IH (N.shiftr v 7)) as [r Hr].
+    + rewrite shiftr7. replace (7 * N.of_nat (S (S f))) with (7 + 7 * N.of_nat (S f)) in Hv by lia.
+      rewrite N.pow_add_r in Hv. change (2 ^ 7) with 128 in Hv.
+      apply N.div_lt_upper_bound; lia.
+    + rewrite Hr. eexists; reflexivity.
+Qed.
+
+Lemma write_uleb128_ok v : v < 2 ^ 64 -> exists bs, write_uleb128 v = Ok bs.
+Proof.
+  intros Hv. apply (write_uleb_fuel_ok 9). eapply N.lt_trans; [exact Hv|].
+  change (7 * N.of_nat 10) with 70. reflexivity.
+Qed.
+
+(* without the target's unit offset both passes fail with the error that says why *)
+Theorem typed_ref_needs_offset dbg e uo refs offsets pos o en er :
+  uses_entry o = Some en -> wf_op o = true ->
+  entry_offset dbg uo en = Err er ->
+  write_op dbg e uo refs offsets pos o = Err er /\
+  match o with
+  | WoCall _ | WoParameterRef _ => True          (* fixed 4-byte operand: size() does not look the entry up *)
+  | _ => size_op dbg e uo o = Err er
+  end.
+Proof.
+  intros Hu Hwf He.
+  destruct o; try discriminate Hu; cbn [uses_entry] in Hu;
+    try (destruct base as [b|]; [|discriminate Hu]); inversion Hu; subst;
+    cbn [write_op size_op]; unfold only; rewrite ?He, ?(entry_offset_base_size_err _ _ _ _ He); cbn [bind];
+    try (split; [reflexivity|try reflexivity; exact I]).
+  (* RegType writes the register first *)
+  cbn [wf_op] in Hwf. apply andb_true_iff in Hwf. destruct Hwf as [Hr _].
+  destruct (write_uleb128_ok reg) as [rb Hrb].
+  { eapply N.lt_trans; [apply N.ltb_lt; exact Hr|reflexivity]. }
+  rewrite Hrb. cbn [bind]. split; reflexivity.
+Qed.
+
+(* call_ref / variable_value / implicit_pointer: a placeholder of the reference size and one fix-up
+   pointing at it; symbols and a missing fix-up list are errors *)
+Definition ref_operand (e : enc) (o : wop) : option (dref * N) :=
+  match o with
+  | WoCallRef r => Some (r, word_size (e_fmt64 e))
+  | WoVarValue r => Some (r, word_size (e_fmt64 e))
+  | WoImplicitPointer r _ => Some (r, iptr_size e)
+  | _ => None
+  end.
+
+Theorem ref_write_spec dbg e uo refs offsets pos o r size :
+  ref_operand e o = Some (r, size) ->
+  match r with
+  | RSym _ => write_op dbg e uo refs offsets pos o = Err WInvalidReference
+  | REntry u en =>
+      if refs then
+        forall bs fx, write_op dbg e uo refs offsets pos o = Ok (bs, fx) ->
+          fx = [{| fx_offset := pos + 1; fx_size := size; fx_unit := u; fx_entry := en |}] /\
+          exists opc z tail, bs = opc :: z ++ tail /\ write_udata (e_be e) 0 size = Ok z
+      else write_op dbg e uo refs offsets pos o = Err WInvalidReference
+  end.
+Proof.
+  intros Hr. destruct o; try discriminate Hr; cbn [ref_operand] in Hr; inversion Hr; subst; clear Hr;
+    cbn [write_op]; unfold write_ref; destruct r as [s|u en]; try reflexivity; destruct refs; try reflexivity.
+  - intros bs fx H. inv_all. split; [reflexivity|]. eexists _, _, []. rewrite app_nil_r. split; [reflexivity|eassumption].
+  - intros bs fx H. inv_all. split; [reflexivity|]. eexists _, _, []. rewrite app_nil_r. split; [reflexivity|eassumption].
+  - intros bs fx H. inv_all. split; [reflexivity|]. eexists _, _, _. split; [reflexivity|eassumption].
+Qed.
+
+(* applying a fix-up writes the target's .debug_info offset into the placeholder and nothing else *)
+Lemma overwrite_length : forall buf n w, (n + length w <= length buf)%nat -> length (overwrite buf n w) = length buf.
+Proof.
+  induction buf as [|x buf IH]; intros n w H.
+  - destruct n; destruct w; cbn in *; try lia; reflexivity.
+  - destruct n as [|n].
+    + destruct w as [|b w]; [reflexivity|]. cbn [overwrite length] in *. f_equal. apply (IH 0%nat). lia.
+    + cbn [overwrite length] in *. f_equal. apply IH. lia.
+Qed.
+
+Lemma overwrite_skipn : forall buf n w, (n + length w <= length buf)%nat ->
+  skipn n (overwrite buf n w) = w ++ skipn (n + length w) buf.
+Proof.
+  induction buf as [|x buf IH]; intros n w H.
+  - destruct n; destruct w; cbn in *; try lia; reflexivity.
+  - destruct n as [|n].
+    + destruct w as [|b w]; [reflexivity|]. cbn [overwrite length skipn app Nat.add] in *.
+      f_equal. specialize (IH 0%nat w). cbn [skipn Nat.add] in IH. apply IH. lia.
+    + cbn [overwrite length skipn Nat.add] in *. apply IH. lia.
+Qed.
+
+Lemma overwrite_firstn : forall buf n w, firstn n (overwrite buf n w) = firstn n buf.
+Proof.
+  induction buf as [|x buf IH]; intros n w.
+  - destruct n; destruct w; reflexivity.
+  - destruct n as [|n]; [reflexivity|]. cbn [overwrite firstn]. f_equal. apply IH.
+Qed.
+
+Theorem fixup_resolves be units sec_base buf f buf' u off :
+  apply_fixups be units sec_base buf [f] = Ok buf' ->
+  nth_N units (fx_unit f) = Some u -> debug_info_offset u (fx_entry f) = Ok (Some off) -> off < 2 ^ 64 ->
+  let at_ := N.to_nat (fx_offset f - sec_base) in
+  length buf' = length buf /\
+  firstn at_ buf' = firstn at_ buf /\
+  exists tail, skipn at_ buf' = tail /\
+    rd_sized be (fx_size f) tail = Some (off, skipn (at_ + N.to_nat (fx_size f)) buf).
+Proof.
+  intros H Hu Ho Hoff. cbv zeta. cbn [apply_fixups] in H. rewrite Hu in H. rewrite Ho in H. cbn [bind] in H.
+  apply bind_ok_inv in H. destruct H as [w [Hw H]].
+  apply bind_ok_inv in H. destruct H as [b1 [Hb H]]. inversion H; subst b1. clear H.
+  unfold write_at in Hb.
+  destruct (blen buf <? fx_offset f - sec_base) eqn:E1; [discriminate|].
+  destruct (blen buf - (fx_offset f - sec_base) <? blen w) eqn:E2; [discriminate|]. inversion Hb; subst buf'. clear Hb.
+  pose proof (write_udata_len _ _ _ _ Hw) as Hl. unfold blen in *.
+  assert (Hfit : (N.to_nat (fx_offset f - sec_base) + length w <= length buf)%nat) by lia.
+  split; [apply overwrite_length; exact Hfit|]. split; [apply overwrite_firstn|].
+  eexists. split; [reflexivity|]. rewrite overwrite_skipn by exact Hfit.
+  rewrite (rd_sized_written be off (fx_size f) w _ Hoff Hw). repeat f_equal. lia.
+Qed.
